@@ -41,7 +41,12 @@ def make_handler(kind, keep_table, log):
     def h5(res_name, row, i, e, field):
         log.append((i, field.name if field is not None else None))
         return keep_table.get((i, field.name if field is not None else None), '')
-    return h5
+
+    def h5_default(res_name, row, i, e, field=None):
+        # the same handler written so that it can also serve validate(<custom validator>), which passes no field
+        return h5(res_name, row, i, e, field)
+    # which of the two shapes: decided by the table (a pure function of the case)
+    return h5_default if (len(keep_table) % 2 == 1 or kind == 'custom5d') else h5
 
 
 def gen_case(rng):
